@@ -47,7 +47,8 @@ def probe(N, delta, r0, L0, l0, sh=False):
 def spectrum(fx, fy, r0, L0, l0):
     f2 = fx * fx + fy * fy
     fm = 5.92 / l0 / (2 * math.pi)
-    return 0.023 * r0 ** (-5.0 / 3) * np.exp(-f2 / fm ** 2) * (f2 + L0 ** -2.0) ** (-11.0 / 6)
+    with np.errstate(all="ignore"):
+        return 0.023 * r0 ** (-5.0 / 3) * np.exp(-f2 / fm ** 2) * (f2 + (0.0 if math.isinf(L0) else L0 ** -2.0)) ** (-11.0 / 6)
 
 
 def cov_oracle(N, delta, r0, L0, l0):
@@ -98,16 +99,20 @@ def structure(C):
 def cfgs(draw, nmax=24):
     N = 2 * draw(st.integers(1, nmax // 2))
     delta = draw(gen.logfloat(0.01, 1.0))
-    return {"N": N, "delta": delta, "r0": draw(gen.logfloat(0.05, 1.0)), "L0": N * delta * draw(gen.logfloat(0.2, 20.0)),
-            "l0": draw(gen.logfloat(1e-4, 0.1)), "k": draw(gen.logfloat(0.3, 3.0)), "seed": draw(st.integers(0, 2**31))}
+    L0 = N * delta * draw(gen.logfloat(0.2, 20.0))
+    if draw(st.integers(0, 5)) == 0:
+        L0 = draw(st.sampled_from([float("inf"), 1e6, 1e9]))          # Kolmogorov-like outer scales are valid inputs
+    return {"N": N, "delta": delta, "r0": draw(gen.logfloat(0.05, 1.0)), "L0": L0,
+            "l0": draw(st.one_of(gen.logfloat(1e-4, 0.1), st.just(2 * delta), st.just(delta))), "k": draw(gen.logfloat(0.3, 3.0)), "seed": draw(st.integers(0, 2**31))}
 
 
 def hi_body(ctx, p):
     N, delta, r0, L0, l0 = p["N"], p["delta"], p["r0"], p["L0"], p["l0"]
-    ctx.case(p, nontrivial=N >= 4, classes=["N%d" % N])
+    ctx.case(p, nontrivial=N >= 4, classes=["N%d" % N, "L0_inf" if math.isinf(L0) else ("L0_huge" if L0 >= 1e6 else "L0_finite")])
     with warnings.catch_warnings():
         warnings.simplefilter("ignore")
-        L, zero, req = probe(N, delta, r0, L0, l0)
+        with np.errstate(all="ignore"):
+            L, zero, req = probe(N, delta, r0, L0, l0)
     ctx.require(zero.shape == (N, N), "screen shape %s" % (zero.shape,))
     ctx.require(not np.any(zero), "screen with all-zero draws is not zero (non-zero mean)")
     ctx.require([tuple(r) if r is not None else r for r in req] == [(N, N), (N, N)], "ft_phase_screen requested draws %r, expected two (N,N) blocks" % (req,))
